@@ -159,7 +159,8 @@ def decNewRefvalC (e : Elem) (nbits : Nat) (s : St) : CM St := do
   if nd ≠ 0 then .error .other
   else pure (setNewRefval (s.pushAll (.int v)) e.id v)
 
-/-- `_assert_equal_values_of_index`: minimum and maximum over the non-missing heads must agree -/
+/-- `_assert_equal_values_of_index` BEFORE the repair of finding F24 (`CoderState.minmax`): minimum and maximum over
+    the NON-MISSING heads must agree.  Kept for `decFactorCLax` only. -/
 def minmaxInt : List Val → CM (Option (Int × Int))
   | [] => .ok none
   | v :: vs => do
@@ -169,11 +170,25 @@ def minmaxInt : List Val → CM (Option (Int × Int))
     | .int i => pure (match r with | none => some (i, i) | some (lo, hi) => some (min lo i, max hi i))
     | _ => .error .other
 
-def decFactorC (s : St) : CM Val := do
+/-- `get_value_for_delayed_replication_factor` of compressed data BEFORE the repair of finding F24: a factor that is
+    missing in a subset other than the first passes.  NOT used by the model of the code; kept so that the proved
+    negation `C09_compressed_missing_count_breaks` (Props/C09Wire.lean) documents why the repair is needed. -/
+def decFactorCLax (s : St) : CM Val := do
   let heads ← s.vals.mapM headVal
   match ← minmaxInt heads with
   | some (lo, hi) => if lo ≠ hi then .error .other else headVal heads
   | none => headVal heads
+
+/-- `_assert_equal_values_of_index` (finding F24 repaired): every value of the column equals the first one, `None`
+    included; a difference is `PyBufrKitError`. -/
+def sameAsFirst : List Val → CM Unit
+  | [] => .ok ()
+  | v :: vs => if vs.all (· == v) then .ok () else .error .lib
+
+def decFactorC (s : St) : CM Val := do
+  let heads ← s.vals.mapM headVal
+  sameAsFirst heads
+  headVal heads
 
 def decPrimsC : Prims where
   numeric := decNumericC
@@ -212,6 +227,15 @@ def decodeSubsets (tmpl : List Desc) : Nat → Bits → CM (List SubsetOut × Bi
 
 def decodeCompressed (tmpl : List Desc) (n : Nat) (bits : Bits) : CM (List SubsetOut × Bits) :=
   match walkList decPrimsC tmpl { bits := bits, vals := List.replicate n [] } with
+  | .error e => .error e
+  | .ok s => .ok (s.outs, s.bits)
+
+/-- the compressed decoder BEFORE the repair of finding F24 (`decFactorCLax`); used by
+    `C09_compressed_missing_count_breaks` only -/
+def decPrimsCLax : Prims := { decPrimsC with factorValue := decFactorCLax }
+
+def decodeCompressedLax (tmpl : List Desc) (n : Nat) (bits : Bits) : CM (List SubsetOut × Bits) :=
+  match walkList decPrimsCLax tmpl { bits := bits, vals := List.replicate n [] } with
   | .error e => .error e
   | .ok s => .ok (s.outs, s.bits)
 
